@@ -45,7 +45,7 @@ def parse_file(filepath: PathLike) -> RecordsDatabase:
     try:
         with open(filepath, mode="r", encoding="utf-8") as file:
             return _parse_file(file)
-    except OSError as e:
+    except (OSError, UnicodeDecodeError) as e:
         raise DatabaseError("Can't open database file for parsing") from e
 
 
